@@ -158,7 +158,7 @@ def expectation(cfg):
     return exp
 
 
-def analyse(cfg, exp, res, ctx, fault=None, cfgname="bumpver.toml"):
+def analyse(cfg, exp, res, ctx, fault=None, cfgname="bumpver.toml", repo=None):
     """The step automaton.  Reports violations on ctx."""
     facts0 = {"pers": cfg["pers"], "dry": cfg["dry"], "fault": fault.to_json() if fault else None}
     key = {k: cfg[k] for k in sorted(cfg)}
@@ -311,6 +311,10 @@ def analyse(cfg, exp, res, ctx, fault=None, cfgname="bumpver.toml"):
                 staged = sorted(set(p for e in seen[4] for p in e["info"].get("paths", [])))
                 if staged != sorted([cfgname, "a.txt", "src/b.txt"]):
                     bad("missing_step", "staged paths %r are not the configured files" % (staged,), role="stage-set")
+            if ok(8) and exp["tag"] and repo is not None and new_v and new_v not in repo.remote_tags:
+                bad("missing_step", "tag and push are enabled and both steps ran, yet the remote did not receive the tag %r "
+                    "(push %s; the tag is %s)" % (new_v, [e["argv"] for e in seen[8]],
+                                                   "lightweight" if cfg["tagmsg"] == "empty" else "annotated"), role="push-tag")
             if cfg["pre"] == "fail" and exp["pre"] and (seen.get(4) or seen.get(5)):
                 bad("step_after_failure", "commit went ahead after the pre-commit hook failed", role="5")
         return
@@ -360,7 +364,7 @@ class Lattice:
         ctx.invocations += 1
         roles = [(e.get("role") or "hook:" + e["path"], e.get("rc")) for e in res.events]
         ctx.event("update", argv, res.exit_code, roles, invoker.digest_snapshot(res.after), repo.digest())
-        analyse(cfg, exp, res, ctx, None, cfgname)
+        analyse(cfg, exp, res, ctx, None, cfgname, repo)
         if cfg.get("inherited_env") and any(e["kind"] == "hook" for e in res.events):
             ctx.probe("hook_with_inherited_version_variables")
         ctx.state((case["point"] // 4,))
@@ -527,7 +531,8 @@ class RealSteps:
                 "hook_src": rng.choice(["config", "cli"]), "dry": rng.random() < 0.15, "ops": [{"op": "update"}],
                 "inherited_env": rng.choice([None, None, {"BUMPVER_OLD_VERSION": "0.9.0", "BUMPVER_NEW_VERSION": "0.9.1"}]),
                 # a failing hook either exits non-zero or is killed (CI cancel, OOM killer)
-                "fail_how": rng.choice(["exit 7", "exit 7", "exit 255", "kill -KILL $$", "kill -TERM $$"])}
+                "fail_how": rng.choice(["exit 7", "exit 7", "exit 255", "kill -KILL $$", "kill -TERM $$"]),
+                "tagmsg_empty": rng.random() < 0.4}     # tag_message = "" (documented): a lightweight tag
 
     def run(self, case, ctx):
         from sim import realgit
@@ -551,6 +556,8 @@ class RealSteps:
                 hook_lines += '%s_commit_hook = "%s.sh"\n' % (which, which)
             else:
                 argv += ["--%s-commit-hook" % which, which + ".sh"]
+        if case.get("tagmsg_empty"):
+            hook_lines += 'tag_message = ""\n'
         cfg = ('[bumpver]\ncurrent_version = "1.2.3"\nversion_pattern = "MAJOR.MINOR.PATCH"\n%scommit = true\ntag = %s\npush = %s\n\n'
                '[bumpver.file_patterns]\n"bumpver.toml" = [\'current_version = "{version}"\']\n"a.txt" = ["ver {version}"]\n'
                % (hook_lines, "true" if case["tag"] else "false", "true" if case["push"] else "false"))
@@ -618,6 +625,13 @@ class RealSteps:
                 pushed = remote_head == head1
                 if pushed != bool(case["push"]):
                     bad("missing_step" if case["push"] else "step_without_enable", "pushed=%s with push=%s" % (pushed, case["push"]))
+                remote_tags = [ln.split("refs/tags/")[-1] for ln in rg.git("ls-remote", "--tags", "origin").splitlines()
+                               if "refs/tags/" in ln and not ln.endswith("^{}")]
+                if case["tag"] and case["push"] and "1.2.4" not in remote_tags:
+                    bad("missing_step", "tag and push enabled, but the %s tag 1.2.4 did not reach the remote (remote tags %s)" % (
+                        "lightweight" if case.get("tagmsg_empty") else "annotated", remote_tags))
+                if not (case["tag"] and case["push"]) and remote_tags:
+                    bad("step_without_enable", "remote received tags %s with tag=%s push=%s" % (remote_tags, case["tag"], case["push"]))
 
 
 CAMPAIGNS.append(RealSteps())
